@@ -388,8 +388,7 @@ def conv : Conv St where
       modify fun s => { s with schReq := true }
       let s ← get
       callFunc "_sch" [] [varName s dst global, src]
-      let s ← get
-      callFunc "_slg" [] [varEvalString s dst global]
+      callFunc "_slg" [] [src]
       let s ← get
       pure (varEvalString s "_len" true)
   exists_ path _ := do
@@ -430,7 +429,7 @@ def helperLines (s : St) : List BLine :=
       [.raw "set \"_i=0\"", .call "_slg" ["%2"], .label "_sch_loop", .opn "if !_i! lss !_len! (",
        .raw "for /f \"delims=\" %%i in (\"%2_!_i!\") do set \"_v=!%%i!\"",
        .raw (sliceAssignmentString "!%1!" "!_i!" "!_v!"), .raw "set /A \"_i=!_i!+1\"", .goto "_sch_loop", .close,
-       .call "_sls" ["!%1!", "!_i!"]] else []
+       .call "_slg" ["!%1!"], .raw "if !_i! gtr !_len! call :_sls !%1! !_i!"] else []
   let sahReq := s.sahReq
   let sah := if sahReq then helper "slice assignment" "_sah"
       [.call "_slg" ["!%1!"], .raw "set \"_i=!_len!\"", .label "_sah_loop", .opn "if !_i! lss %2 (",
